@@ -49,6 +49,8 @@ class Recorder(object):
         self.lock = threading.RLock()
         self.monitors = []
         self.rows = {k: {} for k in SNAP_TABLES.values()}
+        self.prev_rows = self.rows
+        self.snap_no = 0
         self.dirty = False
         self.counts = {}
         self._cols = {}
@@ -88,12 +90,14 @@ class Recorder(object):
 
     # ------------------------------------------------------------------
     def snapshot(self, reason='commit'):
-        """Diff committed rows against the previous snapshot -> ROW events."""
+        """Diff committed rows against the previous snapshot -> ROW events.
+        Monitors see rec.rows (after the commit) and rec.prev_rows (before)."""
         if not self.snap_enabled:
             return
         from mvf import boot
         con = boot.raw_connection()
         with self.lock:
+            new_all = {}
             for table, short in SNAP_TABLES.items():
                 cur = con.execute('SELECT * FROM %s' % table)
                 cols = self._cols.get(table)
@@ -107,25 +111,28 @@ class Recorder(object):
                         if c not in _SKIP_COLS:
                             row[c] = v
                     new[row['id']] = row
-                old = self.rows[short]
-                if new.keys() != old.keys() or any(
-                        dict.__ne__(new[k], old[k]) for k in new):
-                    for k in new:
-                        if k not in old:
-                            self.emit('ROW', table=short, id=k, before=None,
-                                      after=new[k], reason=reason)
-                        elif dict.__ne__(new[k], old[k]):
-                            changed = [c for c in new[k]
-                                       if new[k][c] != old[k].get(c)]
-                            self.emit('ROW', table=short, id=k,
-                                      before=old[k], after=new[k],
-                                      changed=changed, reason=reason)
-                    for k in old:
-                        if k not in new:
-                            self.emit('ROW', table=short, id=k,
-                                      before=old[k], after=None,
-                                      reason=reason)
-                self.rows[short] = new
+                new_all[short] = new
+            old_all = self.rows
+            self.prev_rows = old_all
+            self.rows = new_all
+            self.snap_no += 1
+            for short in SNAP_TABLES.values():
+                new, old = new_all[short], old_all[short]
+                for k in new:
+                    if k not in old:
+                        self.emit('ROW', table=short, id=k, before=None,
+                                  after=new[k], reason=reason)
+                    elif dict.__ne__(new[k], old[k]):
+                        changed = [c for c in new[k]
+                                   if new[k][c] != old[k].get(c)]
+                        self.emit('ROW', table=short, id=k, before=old[k],
+                                  after=new[k], changed=changed,
+                                  reason=reason)
+                for k in old:
+                    if k not in new:
+                        self.emit('ROW', table=short, id=k, before=old[k],
+                                  after=None, reason=reason)
+            self.emit('SNAP', reason=reason)
 
     def get_rows(self, short):
         return self.rows[short]
